@@ -84,8 +84,47 @@ class Fn:
     def g(self):
         """successor map over non-cleanup blocks"""
         if self._g is None:
-            self._g = {i: self.succs_raw(i) for i in range(self.n) if not self.bbs[i]['c']}
+            g = {i: self.succs_raw(i) for i in range(self.n) if not self.bbs[i]['c']}
+            self._thread_jumps(g)
+            self._g = g
         return self._g
+
+    def _thread_jumps(self, g):
+        """P5 (part): thread jumps through statement-free blocks that switch on a boolean
+        local which the predecessor has just set to a constant (the shape `matches!` and
+        `let x = a && b` lower to). Only removes infeasible paths."""
+        self.threaded = {}
+        preds = collections.defaultdict(list)
+        for n, ss in g.items():
+            for x in ss:
+                preds[x].append(n)
+        for S in list(g):
+            bb = self.bbs[S]
+            t = bb['t']
+            if t['k'] != 'switch' or bb['s']:
+                continue
+            L = op_local(t['d'])
+            if L is None or self.r['locals'][L] != 'bool':
+                continue
+            explicit = {int(v): tb for v, tb in t['v']}
+            for P in preds.get(S, []):
+                pt = self.bbs[P]['t']
+                if pt['k'] != 'goto':
+                    continue
+                val = None
+                for st in reversed(self.bbs[P]['s']):
+                    if st[0] == 'A' and st[1][0] == L and not st[1][1]:
+                        rv = st[2]
+                        if rv[0] == 'use' and rv[1][0] == 'k':
+                            c = rv[1][2].replace('const ', '')
+                            if c in ('true', 'false'):
+                                val = 1 if c == 'true' else 0
+                        break
+                if val is None:
+                    continue
+                tgt = explicit.get(val, t['o'])
+                g[P] = [tgt]
+                self.threaded[(P, S)] = tgt
 
     @property
     def preds(self):
@@ -297,6 +336,50 @@ class Fn:
                     prev[s] = n
                 st.append(s)
         return True, None
+
+    def must_pass_from(self, starts, targets):
+        """every path from any block in `starts` (inclusive) to a Return passes a block in
+        targets. Returns (ok, witness_path)."""
+        targets = set(targets)
+        rets = set(self.returns())
+        prev = {}
+        st = []
+        for s in starts:
+            if s not in targets:
+                st.append(s)
+                prev[s] = None
+        seen = set()
+        while st:
+            n = st.pop()
+            if n in seen:
+                continue
+            seen.add(n)
+            if n in rets:
+                p = [n]
+                while prev.get(p[-1]) is not None:
+                    p.append(prev[p[-1]])
+                return False, p[::-1]
+            for s in self.g.get(n, ()):
+                if s in seen or s in targets:
+                    continue
+                if s not in prev:
+                    prev[s] = n
+                st.append(s)
+        return True, None
+
+    def assigns_field(self, b, field_pred):
+        """block b assigns (statement or call destination) a place whose last field satisfies pred"""
+        for s in self.bbs[b]['s']:
+            if s[0] == 'A':
+                fs = place_fields(s[1])
+                if fs and field_pred(fs[-1]):
+                    return True
+        t = self.bbs[b]['t']
+        if t['k'] == 'call':
+            fs = place_fields(t['d'])
+            if fs and field_pred(fs[-1]):
+                return True
+        return False
 
     # ---- loops / SCC -----------------------------------------------------------------
     def sccs(self, removed_nodes=()):
